@@ -90,6 +90,7 @@ type Obligation struct {
 	Detail string
 	Track  map[string]string // label -> term to read from a model
 	Result *SolveResult
+	Small  []string // terms to bound when looking for a small model
 	ctx    *Ctx
 }
 
@@ -130,6 +131,7 @@ type Ctx struct {
 	specErr       string // set when spec-level evaluation needed something impure
 	pendingShift  int
 	gvTypes       map[string]string
+	trackSmall    map[string]bool // tracked labels with Int sort that a small-model retry may bound
 	declared      map[string]bool
 }
 
@@ -236,6 +238,9 @@ func (c *Ctx) oblige(family, kind string, pos token.Pos, reach, goal, detail str
 		Detail: detail, ctx: c, Track: map[string]string{}}
 	for k, v := range c.track {
 		o.Track[k] = v
+		if c.trackSmall[k] {
+			o.Small = append(o.Small, v)
+		}
 	}
 	if pos.IsValid() {
 		p := c.w.Fset.Position(pos)
